@@ -240,6 +240,14 @@ func parseContractFile(path string, pkgPath string, pc *PkgContracts) error {
 				cur.Loops[ord] = append(cur.Loops[ord], c)
 			case "modifies":
 				cur.LoopMods[ord] = append(cur.LoopMods[ord], splitTop(r2, ',')...)
+			case "complete":
+				// loop N complete label: the loop is left only through its header (its range is exhausted or
+				// its condition fails) - no return or break from inside the body: every element is processed
+				lbl := strings.TrimSpace(r2)
+				if lbl == "" {
+					lbl = "complete"
+				}
+				cur.Flags[fmt.Sprintf("complete.%d", ord)] = lbl
 			default:
 				return fmt.Errorf("%s:%d: bad loop clause %q", path, i+1, kind)
 			}
